@@ -372,6 +372,34 @@ def r13_2(rep, M, rid):
             rep.violation(rid, base + " radii", f"`{norm(rad[0])}` is not derived from self._radii", M.where(fq, call))
         else:
             rep.ok(rid, base + " radii <- self._radii")
+            # ... and as a per-atom slice: the array holds one radius per atom of the parent system
+            getter, _setter = property_of(M, CLUSTER, "indices")
+            ok_idx = {"self.indices"} | {"self." + b for b in backing_fields(getter)}
+            sdefs = {}
+            for s2 in ast.walk(fn):
+                if isinstance(s2, ast.Assign) and len(s2.targets) == 1 and isinstance(s2.targets[0], ast.Name):
+                    sdefs.setdefault(s2.targets[0].id, []).append(s2.value)
+
+            def strip(x):
+                for _ in range(8):
+                    if isinstance(x, ast.Call) and x.args and (M.ext_name(fq, x.func) or "") in ("numpy.asarray", "numpy.array", "numpy.copy"):
+                        x = x.args[0]
+                    elif isinstance(x, ast.Name) and len(sdefs.get(x.id, ())) == 1:
+                        x = sdefs[x.id][0]
+                    else:
+                        break
+                return x
+            for e in rad:
+                core = strip(e)
+                if isinstance(core, ast.Constant) and core.value is None:
+                    continue
+                b0 = strip(core.value) if isinstance(core, ast.Subscript) else None
+                if isinstance(core, ast.Subscript) and b0 is not None and norm(b0) == "self._radii" and norm(core.slice) in ok_idx:
+                    rep.ok(rid, base + f" radii = `{norm(e)}`: the per-atom radii sliced by the cluster's indices")
+                else:
+                    rep.violation(rid, base + " radii form", f"`{norm(e)[:90]}` is not the per-atom array `self._radii` sliced by the cluster's indices: any "
+                                  "detour (lookup by species, re-resolution from a preset) loses per-atom custom radii, so the 2x supercell test uses "
+                                  "other radii than the clustering and the cached 1x matrix did", M.where(fq, call))
         mat = kw_value(fn, call, "dist_matrix_radii_mic_1x", gparams.index("dist_matrix_radii_mic_1x"))
         sysarg = call.args[0] if call.args else (kw_value(fn, call, "system") or [None])[0]
         if sysarg is None:
